@@ -52,9 +52,34 @@ func NewRuleExpression(actionsCache *LocalActionsCache, workflowCache *LocalReus
 	}
 }
 
+func typeOfWorkflowDispatchInputs(e *WorkflowDispatchEvent) *ObjectType {
+	ity := NewEmptyStrictObjectType()
+	for id, i := range e.Inputs {
+		switch i.Type {
+		case WorkflowDispatchEventInputTypeBoolean:
+			ity.Props[id] = BoolType{}
+		case WorkflowDispatchEventInputTypeNumber:
+			ity.Props[id] = NumberType{}
+		case WorkflowDispatchEventInputTypeString, WorkflowDispatchEventInputTypeChoice, WorkflowDispatchEventInputTypeEnvironment:
+			ity.Props[id] = StringType{}
+		default:
+			ity.Props[id] = AnyType{}
+		}
+	}
+	return ity
+}
+
 // VisitWorkflowPre is callback when visiting Workflow node before visiting its children.
 func (rule *RuleExpression) VisitWorkflowPre(n *Workflow) error {
 	rule.checkString(n.Name, "")
+
+	// Inputs of workflow_dispatch are merged into `inputs` context. Collect them before checking the events
+	// so that the result does not depend on whether workflow_dispatch is put before or after workflow_call.
+	for _, e := range n.On {
+		if e, ok := e.(*WorkflowDispatchEvent); ok {
+			rule.dispatchInputsTy = typeOfWorkflowDispatchInputs(e)
+		}
+	}
 
 	for _, e := range n.On {
 		switch e := e.(type) {
